@@ -26,6 +26,15 @@ pub fn main(args: &[String]) {
                 (n, Pos::of_board(&b) == pos)
             });
             results.insert("fresh".into(), match fresh { Ok((n, same)) => json!({"n": n, "board_unchanged": same}), Err(p) => json!({"panic": p}) });
+            // the counter takes the colour explicitly (moves are applied without flipping the board's own
+            // turn field, so inner nodes routinely have turn != colour): the turn field must not matter
+            let mism = guarded(|| {
+                let mut b = pos.setup();
+                b.set_turn(side.opposite());
+                let mut g = MoveGenerator::new();
+                g.count_positions(depth, &mut b, side)
+            });
+            results.insert("turn_field_flipped".into(), match mism { Ok(n) => json!({"n": n}), Err(p) => json!({"panic": p}) });
             let u = guarded(|| {
                 let mut b = pos.setup();
                 used.count_positions(depth, &mut b, side)
